@@ -174,8 +174,9 @@ Proof.
     specialize (IHt Hwf Hpl Hin Hfit). cbn [nals als]. rewrite IHt.
     destruct (wf_als _ Hwf) as [P S]. unfold stride_of, align_of, size_of in *.
     destruct (als t) as [a s]. cbn [fst snd] in *.
-    rewrite nround_eq by (auto; lia). rewrite u32_small; auto.
-    pose proof (pow2_pos _ P). pose proof (round_up_nonneg a s). nia.
+    rewrite nround_eq by (auto; lia).
+    pose proof (pow2_pos _ P). pose proof (round_up_nonneg a s).
+    rewrite u32_small by nia. f_equal. lia.
   - cbn [wf plain_attrs align_inert fits] in *. andb_split Hwf. andb_split Hfit.
     specialize (IHt Hwf Hpl Hin Hfit). cbn [nals als]. rewrite IHt.
     destruct (wf_als _ Hwf) as [P S]. unfold stride_of, align_of, size_of in *.
@@ -224,7 +225,7 @@ Lemma nstride_eq : forall e, wf e = true -> nals e = als e ->
 Proof.
   intros e Hwf E Hf. unfold nstride, stride_of, align_of, size_of in *. rewrite E.
   destruct (wf_als _ Hwf) as [P S]. unfold align_of, size_of in *. destruct (als e) as [a s]. cbn [fst snd] in *.
-  apply nround_eq; auto. lia.
+  apply nround_eq; auto; lia.
 Qed.
 
 Lemma forallb_mem : forall (f : member -> bool) ms m, forallb f ms = true -> In m ms -> f m = true.
@@ -238,10 +239,10 @@ Proof.
     try (cbn [naga_layout spec_layout]; f_equal; apply (ir_type_size_leaf _ Hwf)).
   - cbn [wf plain_attrs align_inert fits] in *. andb_split Hwf. andb_split Hfit.
     cbn [naga_layout spec_layout]. rewrite IHt by auto.
-    rewrite nstride_eq; auto. apply nals_eq; auto.
+    rewrite nstride_eq; auto; try lia. apply nals_eq; auto.
   - cbn [wf plain_attrs align_inert fits] in *. andb_split Hwf. andb_split Hfit.
     cbn [naga_layout spec_layout]. rewrite IHt by auto.
-    rewrite nstride_eq; auto. apply nals_eq; auto.
+    rewrite nstride_eq; auto; try lia. apply nals_eq; auto.
   - pose proof (wf_struct_members _ Hwf) as Hm.
     assert (Hsub : forall m, In m ms -> wf (mty m) = true /\ plain_attrs (mty m) = true /\
                                       align_inert (mty m) = true /\ fits (mty m) = true).
@@ -260,4 +261,104 @@ Proof.
     unfold size_of. rewrite als_struct. cbn [snd]. unfold member_offsets. f_equal.
     apply map_ext_in. intros m Hinm. destruct (Hsub m Hinm) as [A [B [C D]]].
     rewrite Forall_forall in H. specialize (H m Hinm). destruct m. cbn [mty] in *. auto.
+Qed.
+
+(* ---- root statement: the root structure's own alignment is never consulted ---- *)
+
+Lemma inert_members : forall ms m, In m ms ->
+  wf (TStruct ms) = true -> plain_attrs (TStruct ms) = true ->
+  inner_align_inert (TStruct ms) = true -> fits (TStruct ms) = true ->
+  wf (mty m) = true /\ plain_attrs (mty m) = true /\ align_inert (mty m) = true /\ fits (mty m) = true.
+Proof.
+  intros ms m Hinm Hwf Hpl Hin Hfit.
+  pose proof (wf_struct_members _ Hwf) as Hm. rewrite Forall_forall in Hm. destruct (Hm m Hinm) as [W _].
+  cbn [plain_attrs] in Hpl. pose proof (forallb_mem _ _ _ Hpl Hinm) as A.
+  cbn [inner_align_inert] in Hin. pose proof (forallb_mem _ _ _ Hin Hinm) as B.
+  cbn [fits] in Hfit. andb_split Hfit. pose proof (forallb_mem _ _ _ Hfit Hinm) as C.
+  destruct m; cbn beta iota in A, B, C. andb_split A. andb_split C. cbn [mty] in *. auto.
+Qed.
+
+Lemma root_members_infos : forall ms,
+  wf (TStruct ms) = true -> plain_attrs (TStruct ms) = true ->
+  inner_align_inert (TStruct ms) = true -> fits (TStruct ms) = true ->
+  map sinfo (ninfos ms) = infos_of ms.
+Proof.
+  intros ms Hwf Hpl Hin Hfit. apply hyp_members; auto.
+  rewrite Forall_forall. intros m Hinm.
+  destruct (inert_members _ _ Hinm Hwf Hpl Hin Hfit) as [A [B [C D]]]. apply nals_eq; auto.
+Qed.
+
+Lemma root_offsets_span : forall ms,
+  wf (TStruct ms) = true -> plain_attrs (TStruct ms) = true ->
+  inner_align_inert (TStruct ms) = true -> fits (TStruct ms) = true ->
+  noffsets (ninfos ms) = member_offsets ms /\ nspan (ninfos ms) = size_of (TStruct ms).
+Proof.
+  intros ms Hwf Hpl Hin Hfit.
+  pose proof (root_members_infos _ Hwf Hpl Hin Hfit) as HS.
+  pose proof (wf_infos_pos _ Hwf) as Hpos.
+  cbn [fits] in Hfit. andb_split Hfit.
+  rewrite nspan_spec, noffsets_spec; rewrite ?HS; auto; try lia.
+  unfold size_of. rewrite als_struct. auto.
+Qed.
+
+Theorem naga_layout_eq_spec_partial : forall t,
+  wf t = true -> plain_attrs t = true -> inner_align_inert t = true -> fits t = true ->
+  naga_layout t = spec_layout t.
+Proof.
+  intros t Hwf Hpl Hin Hfit. destruct t; try (apply naga_layout_eq_inert; auto; fail).
+  destruct (root_offsets_span _ Hwf Hpl Hin Hfit) as [Ho Hs].
+  cbn [naga_layout spec_layout]. rewrite Ho, Hs. f_equal.
+  apply map_ext_in. intros m Hinm.
+  destruct (inert_members _ _ Hinm Hwf Hpl Hin Hfit) as [A [B [C D]]].
+  destruct m. cbn [mty] in *. apply naga_layout_eq_inert; auto.
+Qed.
+
+(* ir.TypeSize answers SizeOf *)
+Theorem ir_type_size_eq : forall t,
+  wf t = true -> plain_attrs t = true -> inner_align_inert t = true -> fits t = true ->
+  ir_type_size t = size_of t.
+Proof.
+  intros t Hwf Hpl Hin Hfit.
+  destruct t; try (apply (ir_type_size_leaf _ Hwf)).
+  - cbn [wf plain_attrs inner_align_inert align_inert fits] in *. andb_split Hwf. andb_split Hfit.
+    cbn [ir_type_size]. rewrite nstride_eq; auto; try lia; [|apply nals_eq; auto].
+    rewrite array_size_is_count_times_stride. apply u32_small.
+    destruct (wf_als _ Hwf) as [P S]. pose proof (pow2_pos _ P).
+    pose proof (round_up_nonneg (align_of t) (size_of t)). unfold stride_of in *. nia.
+  - cbn [wf plain_attrs inner_align_inert align_inert fits] in *. andb_split Hwf. andb_split Hfit.
+    cbn [ir_type_size]. rewrite nstride_eq; auto; try lia; [|apply nals_eq; auto].
+    unfold size_of, stride_of, align_of, size_of. cbn [als]. destruct (wf_als _ Hwf) as [P S].
+    unfold align_of, size_of in *. destruct (als t) as [a s]. cbn [fst snd] in *.
+    pose proof (pow2_pos _ P). pose proof (round_up_nonneg a s). pose proof (round_up_lt a s).
+    rewrite Z.mul_1_l. apply u32_small. lia.
+  - cbn [ir_type_size]. apply (root_offsets_span _ Hwf Hpl Hin Hfit).
+Qed.
+
+(* ---- refutations: the faithful model deviates outside the hypotheses ---- *)
+
+Definition dec (v : Z) : option attr := Some (mkattr FDec v).
+Definition hex (v : Z) : option attr := Some (mkattr FHex v).
+Definition cex (v : Z) : option attr := Some (mkattr FExpr v).
+
+(* struct A { @align(16) x: f32 }   struct B { y: f32, a: A } *)
+Definition wit_nested_align : ty :=
+  TStruct [Mem None None (TScalar SF32);
+           Mem None None (TStruct [Mem (dec 16) None (TScalar SF32)])].
+
+(* struct S { a: f32, @align(0x10) b: f32, c: f32 } *)
+Definition wit_hex_align : ty :=
+  TStruct [Mem None None (TScalar SF32); Mem (hex 16) None (TScalar SF32); Mem None None (TScalar SF32)].
+(* const K = 16; struct S { a: f32, @size(K) b: f32, c: f32 } *)
+Definition wit_expr_size : ty :=
+  TStruct [Mem None None (TScalar SF32); Mem None (cex 16) (TScalar SF32); Mem None None (TScalar SF32)].
+
+Theorem naga_layout_refuted_nested_align :
+  exists t, wf t = true /\ plain_attrs t = true /\ fits t = true /\ naga_layout t <> spec_layout t.
+Proof. exists wit_nested_align. vm_compute. repeat split; try reflexivity. discriminate. Qed.
+
+Theorem naga_layout_refuted_nonliteral_attr :
+  (exists t, wf t = true /\ inner_align_inert t = true /\ fits t = true /\ naga_layout t <> spec_layout t) /\
+  (exists t, wf t = true /\ inner_align_inert t = true /\ fits t = true /\ naga_layout t <> spec_layout t).
+Proof.
+  split; [exists wit_hex_align | exists wit_expr_size]; vm_compute; repeat split; try reflexivity; discriminate.
 Qed.
